@@ -8,6 +8,7 @@ import (
 	"time"
 
 	sdk "github.com/cosmos/cosmos-sdk/types"
+	"github.com/cosmos/cosmos-sdk/types/query"
 
 	ophosttypes "github.com/initia-labs/OPinit/x/ophost/types"
 
@@ -33,6 +34,7 @@ type c10State struct {
 type c10Sys struct{}
 
 type c10Create struct{}
+type c10Restart struct{}
 type c10Deposit struct {
 	b      uint64
 	denom  string
@@ -77,6 +79,7 @@ func (c10Sys) Letters(s *c10State) []engine.Letter {
 		}
 		ls = append(ls, engine.Letter{Name: fmt.Sprintf("Deposit(b%d,1uxx,by=unfunded)", b), Data: c10Deposit{b, "uxx", 1, "l2addr", nil, "stranger"}})
 	}
+	ls = append(ls, engine.Letter{Name: "RestartViaGenesis", Data: c10Restart{}})
 	return ls
 }
 
@@ -85,6 +88,11 @@ func (c10Sys) Step(s *c10State, l engine.Letter) (*c10State, string, *engine.Vio
 	c := &c10State{ctx: ctx, w: s.w, b: s.b}
 	before := s.w.Digest(s.ctx)
 	switch d := l.Data.(type) {
+	case c10Restart:
+		if err := s.w.RestartViaGenesis(ctx); err != nil {
+			return c, "error", viol("sequences-and-pairs-survive-a-restart", "export / validate / import of the module genesis failed: %v", err)
+		}
+		return c, "ok", nil
 	case c10Create:
 		res := s.w.Deliver(ctx, ophosttypes.NewMsgCreateBridge(world.Addr("creator").String(), world.BridgeConfig("proposer", "challenger", 10*time.Second)))
 		if !res.OK() {
@@ -210,6 +218,41 @@ func (c10Sys) Check(s *c10State) *engine.Violation {
 				return viol("token-pair-is-the-derivation", "bridge %d: stored pair %s -> %s", id, p.L2Denom, p.L1Denom)
 			}
 		}
+		// the by-denom queries agree with the model for every denom of the menu, recorded or not,
+		// and a one-by-one paged walk lists the same pairs
+		for _, den := range []string{"uxx", "uyy", "uzz"} {
+			l2 := ref.L2Denom(id, den)
+			r1, err := s.w.Q.TokenPairByL1Denom(s.ctx, &ophosttypes.QueryTokenPairByL1DenomRequest{BridgeId: id, L1Denom: den})
+			if err != nil || r1.TokenPair.L1Denom != den || r1.TokenPair.L2Denom != l2 {
+				return viol("token-pair-is-the-derivation", "bridge %d: TokenPairByL1Denom(%s) = %v (err=%v), derivation gives %s", id, den, r1, err, l2)
+			}
+			r2, err := s.w.Q.TokenPairByL2Denom(s.ctx, &ophosttypes.QueryTokenPairByL2DenomRequest{BridgeId: id, L2Denom: l2})
+			_, recorded := mb.Pairs[l2]
+			if recorded != (err == nil) || (recorded && (r2.TokenPair.L1Denom != den || r2.TokenPair.L2Denom != l2)) {
+				return viol("token-pair-is-the-derivation", "bridge %d: TokenPairByL2Denom(%s) = %v (err=%v), model recorded=%v l1=%s", id, l2, r2, err, recorded, den)
+			}
+		}
+		var paged int
+		var key []byte
+		for guard := 0; guard < 16; guard++ {
+			pr, err := s.w.Q.TokenPairs(s.ctx, &ophosttypes.QueryTokenPairsRequest{BridgeId: id, Pagination: &query.PageRequest{Key: key, Limit: 1}})
+			if err != nil {
+				return viol("token-pair-is-the-derivation", "bridge %d: paged TokenPairs: %v", id, err)
+			}
+			for _, p := range pr.TokenPairs {
+				if mb.Pairs[p.L2Denom] != p.L1Denom {
+					return viol("token-pair-is-the-derivation", "bridge %d: paged TokenPairs lists %s -> %s", id, p.L2Denom, p.L1Denom)
+				}
+				paged++
+			}
+			if pr.Pagination == nil || len(pr.Pagination.NextKey) == 0 {
+				break
+			}
+			key = pr.Pagination.NextKey
+		}
+		if paged != len(mb.Pairs) {
+			return viol("token-pair-is-the-derivation", "bridge %d: paged TokenPairs lists %d pairs, model %d", id, paged, len(mb.Pairs))
+		}
 		_, err = s.w.Q.Bridge(s.ctx, &ophosttypes.QueryBridgeRequest{BridgeId: id})
 		if (err == nil) != mb.Exists {
 			return viol("harness-model-out-of-sync", "bridge %d exists=%v in model, query err=%v", id, mb.Exists, err)
@@ -229,7 +272,7 @@ func init() {
 			}
 			res.Absorb("c10", rep)
 			res.Coverage["alphabet"] = "CreateBridge (ids 2,3 created mid-history); Deposit(b∈{1,2,3}, denom∈{uxx,uyy}, amt∈{0,1}, (to,data)∈{(short,∅),(long non-ASCII,bytes)}, sender∈{funded, unfunded})"
-			res.Coverage["oracle"] = "accepted ⇒ bridge exists, response sequence = per-bridge model counter, exactly one initiate_token_deposit event whose 8 attributes equal the request, sender/escrow balances moved by the amount, pair = independent L2-denom derivation and never changes; NextL1Sequence/TokenPairs queries = model in every state; a created bridge has nothing pre-recorded; rejected ⇒ digest unchanged"
+			res.Coverage["oracle"] = "accepted ⇒ bridge exists, response sequence = per-bridge model counter, exactly one initiate_token_deposit event whose 8 attributes equal the request, sender/escrow balances moved by the amount, pair = independent L2-denom derivation and never changes; NextL1Sequence / TokenPairs (whole and paged) / TokenPairByL1Denom / TokenPairByL2Denom queries = model in every state; a created bridge has nothing pre-recorded; rejected ⇒ digest unchanged"
 			res.Assumptions = []string{"3 bridge ids, 2 denoms, amounts 0 and 1"}
 			for _, k := range []string{"Deposit/accepted", "Deposit/rejected", "CreateBridge/accepted"} {
 				res.Require(res.OutcomeCount("c10", k) > 0, "outcome %s never occurred", k)
